@@ -123,8 +123,9 @@ def comps(s):
     return [[ord(c) for c in part] for part in s.strip("/").split("/") if part != ""]
 
 
-def build_tree(entries, rootrel):
-    """entries: [(rel, is_dir)] below `top`; returns ftree term of directory rootrel."""
+def build_tree(entries, rootrel, order=None):
+    """entries: [(rel, is_dir)] below `top`; returns ftree term of directory rootrel. Children in the order
+    the operating system lists them (`order`: directory -> names), which is the order of Path.iterdir."""
     kids = {}
     isdir = {}
     for rel, d in entries:
@@ -135,7 +136,11 @@ def build_tree(entries, rootrel):
     def mk(rel):
         name = [ord(c) for c in os.path.basename(rel)]
         if isdir.get(rel, True):
-            return C("Dir", name, [mk(k) for k in sorted(kids.get(rel, []))])
+            ks = sorted(kids.get(rel, []))
+            if order is not None and rel in order:
+                pos = {n: i for i, n in enumerate(order[rel])}
+                ks.sort(key=lambda k: pos.get(os.path.basename(k), len(pos)))
+            return C("Dir", name, [mk(k) for k in ks])
         return C("File", name)
     return mk(rootrel)
 
@@ -178,25 +183,37 @@ def run(out, tier, seed, proof):
         known = C("known_list", files, C("Some", projc + comps("pyproject.toml")), projc, git_files, git_root)
         pats = [pat_term(p, False) for p in c["cli_exclude"] + c["cfg_exclude"] + [".git/*"]] + [(True, projc + comps(".pytask") + [[42]])]
         args = c["path_args"] or [""]
+        state = r["after_dry"]          # the tree the force run starts from (dry-run may have created .pytask)
+        argterms = []
         for a in args:
             arel = os.path.normpath(os.path.join(projrel, a)) if (projrel or a) else ""
             arel = "" if arel == "." else arel
             absdir = os.path.join(top, arel) if arel else top
             parent = comps(os.path.dirname(absdir))
-            state = r["after_dry"]          # the tree the force run starts from (dry-run may have created .pytask)
             entries = [(os.path.join("", e), d) for e, d in state]
-            tree = build_tree([(e, d) for e, d in entries if e == arel or e.startswith(arel + "/") or arel == ""], arel) if arel else \
-                C("Dir", [ord(ch) for ch in os.path.basename(top)], [build_tree(state, k) for k in sorted({e.split("/")[0] for e, _ in state})])
-            terms.append((known, pats, bool(c["dirs_flag"]), parent, tree))
-            keep.append((c, r, a))
+            order = r.get("order")
+            tops = sorted({e.split("/")[0] for e, _ in state})
+            if order:
+                pos = {n: i for i, n in enumerate(order[""])}
+                tops.sort(key=lambda k: pos.get(k, len(pos)))
+            tree = build_tree([(e, d) for e, d in entries if e == arel or e.startswith(arel + "/") or arel == ""], arel, order) if arel else \
+                C("Dir", [ord(ch) for ch in os.path.basename(top)], [build_tree(state, k, order) for k in tops])
+            argterms.append((parent, tree))
+        fs = [comps(top)] + [comps(top) + comps(e) for e, _ in state]
+        terms.append((known, pats, bool(c["dirs_flag"]), argterms, fs))
+        keep.append((c, r))
+    # the whole command in the model: the listing over all arguments in their order, then the force loop
     model = coq_eval_cases("c11", IMPORTS,
-                           "fun c => match c with (kn, pats, dirs, parent, t) => listing (known_of kn) (excluded pats) dirs parent t end",
+                           "fun c => match c with (kn, pats, dirs, args, fs) => clean_multi (known_of kn) (excluded pats) Force dirs args fs end",
                            terms, shard=12)
-    agg = {}
-    for (c, r, a), m in zip(keep, model):
-        agg.setdefault(id(r), (c, r, set()))[2].update("/" + "/".join("".join(chr(x) for x in comp) for comp in p) for p, d in m)
-    for c, r, listed in agg.values():
+
+    def pstr(p):
+        return "/" + "/".join("".join(chr(x) for x in comp) for comp in p)
+    for (c, r), m in zip(keep, model):
         top = r["top"]
+        mlist, mfs = m
+        listed_seq = [pstr(p) for p, d in mlist]
+        listed = set(listed_seq)
         before = {e for e, _ in r["after_dry"]}
         after = {e for e, _ in r["after_force"]}
         removed = before - after
@@ -205,10 +222,22 @@ def run(out, tier, seed, proof):
         out.case({"files": [f for f, _ in c["files"]], "dirs": c["dirs"], "git": c["git"], "args": c["path_args"], "d": c["dirs_flag"]},
                  nontrivial=bool(removed))
         out.count("with_git" if c["git"] else "no_git")
+        out.count("args_%d" % len(c["path_args"] or [""]))
         out.count("removed_entries", len(removed_top))
-        listed = {q for q in listed if not any(q.startswith(z + "/") for z in listed if z != q)}     # nested arguments
         if got != listed:
             out.disagreement("removed paths differ from the model listing", {"case": c, "impl_removed": sorted(got), "model": sorted(listed)})
+        # the printed lines, in their order, are the model's list (paths are printed relative to a common ancestor)
+        printed = [l.split(" ", 1)[1] for l in r["force"]["lines"] if " " in l]
+        if len(printed) != len(listed_seq) or any(not (q == "/" + pl or q.endswith("/" + pl) or pl == ".") for q, pl in zip(listed_seq, printed)):
+            out.disagreement("printed paths differ from the model listing (order or content)", {"case": c, "printed": printed, "model": listed_seq})
+        # the force loop of the model ends in the file system the real command leaves
+        if mfs == "None":
+            out.disagreement("the model's force loop fails where the real one does not", {"case": c, "model": listed_seq})
+        else:
+            mleft = {pstr(p) for p in mfs[1]}
+            ileft = {top} | {os.path.join(top, e) for e in after}
+            if mleft != ileft:
+                out.disagreement("file system after force mode differs from the model", {"case": c, "only_model": sorted(mleft - ileft)[:8], "only_impl": sorted(ileft - mleft)[:8]})
         # ---- direct oracle
         projrel = os.path.relpath(r["proj"], top)
         pre = "" if projrel == "." else projrel + "/"
@@ -244,6 +273,6 @@ def run(out, tier, seed, proof):
                 from pathlib import PurePosixPath
                 if PurePosixPath("/" + e).match(pat):
                     out.violation("a path matching an exclude pattern was removed", {"case": c, "path": e, "pattern": pat})
-    out.coverage["programs"] = len(agg)
+    out.coverage["programs"] = len(keep)
     if flat_cases:
         out.sample({"case": {k: flat_cases[0][k] for k in ("dirs", "git", "dirs_flag", "path_args", "cli_exclude")}, "lines": flat_res[0].get("dry", {}).get("lines")})
